@@ -67,4 +67,11 @@ inductive PosCheck
   | indexNonNeg        -- if index < 0: raise
   deriving DecidableEq, Repr, Inhabited
 
+/-- the components of a curve's identity: what `Curve.__init__` is given (name and the two
+    construction-time options are not parameters). `CurveGroup._eq_key` / `Curve._eq_key` return a
+    tuple of some of these; the translator lists which, in order. -/
+inductive CurveField
+  | p | a | b | gx | gy | n | h
+  deriving DecidableEq, Repr, Inhabited
+
 end Btc.C20
